@@ -1,5 +1,5 @@
 (* C06 — Trial verdicts: Succeeded needs an objective value; terminal states permanent. *)
-From KV Require Import Base.Prelude Base.Cond Model.World Proofs.WorldPlan Proofs.WorldInv Proofs.WorldInv2 Proofs.WorldInv5 Proofs.WorldThm.
+From KV Require Import Base.Prelude Base.Cond Model.World Proofs.WorldPlan Proofs.WorldInv Proofs.WorldInv2 Proofs.WorldInv5 Proofs.WorldThm Proofs.WorldStab.
 Open Scope Z_scope.
 
 (* UpdateTrialStatusCondition sets Succeeded only from a successful job with an available objective value, on a trial
@@ -74,3 +74,19 @@ Theorem C06_succeeded_only_if_success : forall fail succ running named,
   JobStatus.job_status fail succ running named = JobStatus.JVSucceeded -> succ = true /\ fail = false.
 Proof. intros [|] [|] r n; cbn; try discriminate; auto. destruct (negb r && n); discriminate. Qed.
 Print Assumptions C06_succeeded_only_if_success.
+
+(* Over runs, position by position: every later version of the stored trial list continues every earlier one -- same name,
+   an objective value once present stays the same value, a completed trial stays completed and keeps the class under which
+   the experiment status counts it. *)
+Theorem C06_trials_stable : forall c acts1 acts2,
+  valid_cfg c -> no_teardown (acts1 ++ acts2) ->
+  plag tst (w_trials (run c acts1)) (w_trials (run c (acts1 ++ acts2))).
+Proof. exact trials_stable. Qed.
+Print Assumptions C06_trials_stable.
+
+(* The objective value a stored trial carries is the one held by the metrics DB (whose entries are never changed). *)
+Theorem C06_objective_is_db_value : forall c acts t z,
+  valid_cfg c -> no_teardown acts -> In t (w_trials (run c acts)) -> objective t = Some z ->
+  db_get (t_name t) (w_db (run c acts)) = Some (Some z).
+Proof. exact objective_is_db_value. Qed.
+Print Assumptions C06_objective_is_db_value.
